@@ -121,6 +121,13 @@ theorem builtOf_matches (log : List AddCall) (i : Nat) (dom : Str) (rxHits : Lis
     rw [ht, hpre]
     rfl
 
+theorem zip_map_filterMap {α : Type} (g : α → Bool) : ∀ l : List α,
+    ((l.zip (l.map g)).filterMap fun p => if p.2 then some p.1 else none) = l.filter g
+  | [] => rfl
+  | x :: l => by
+    simp only [List.map_cons, List.zip_cons_cons, List.filterMap_cons, List.filter_cons]
+    cases h : g x <;> simp [zip_map_filterMap g l]
+
 theorem matchIndices_eq_spec (n : Nat) (log : List AddCall) (b : Built) (hsize : b.sets.size = n)
     (hsets : ∀ i, i < n → b.sets[i]? = some (builtOf (setOf log i))) (name : Str) (rxHits : List Nat) :
     b.matchIndices name rxHits = some (b.matchIndicesSpec name rxHits) := by
@@ -129,11 +136,11 @@ theorem matchIndices_eq_spec (n : Nat) (log : List AddCall) (b : Built) (hsize :
   rw [option_mapM_of_forall _ (fun i => (builtOf (setOf log i)).matchesSpec (normName name) rxHits)]
   · simp only [Option.map_some]
     congr 1
+    rw [zip_map_filterMap]
     apply List.filter_congr
     intro i hi
     have hi' : i < n := by simpa using hi
     rw [hsets i hi']
-    simp [List.getD_eq_getElem?_getD, List.getElem?_map, List.getElem?_range hi']
   · intro i hi
     have hi' : i < n := by simpa using hi
     rw [hsets i hi']
